@@ -119,7 +119,7 @@ def _cycles_for(rng, fn, tier, h, h2=None):
     """list of cycles (each a list of op strings)"""
     out = []
     scenario = rng.choice(["walk", "walk", "churn", "growshrink", "burst", "boundary"])
-    maxn = rng.choice([3, 5, 9, 17] if tier == "quick" else [5, 9, 17, 33])
+    maxn = min(rng.choice([3, 5, 9, 17] if tier == "quick" else [5, 9, 17, 33]), len(h.pool) - 1)
     ncyc = rng.randint(6, 14) if tier == "quick" else rng.randint(8, 30)
 
     def zop():
@@ -155,13 +155,16 @@ def _cycles_for(rng, fn, tier, h, h2=None):
         emit(h.add(rng.choice([1, 1, 2, 3, maxn]), set()))
     if scenario == "growshrink":
         for _ in range(rng.choice([1, 2])):
-            while len(h.live) < maxn:
+            guard = 0
+            while len(h.live) < maxn and guard < 60:
+                guard += 1
                 busy = set()
                 ops = h.add(rng.choice([1, 1, 2, 4]), busy)
                 if rng.random() < 0.4:
                     ops += h.upd(1, busy)
                 emit(ops)
-            while h.live:
+            while h.live and guard < 120:
+                guard += 1
                 busy = set()
                 ops = h.rem(rng.choice([1, 1, 2, 3, len(h.live)]), busy)
                 if rng.random() < 0.3:
@@ -176,8 +179,10 @@ def _cycles_for(rng, fn, tier, h, h2=None):
             emit(h.upd(rng.randint(1, 3), set()))
             emit(h.rem(rng.randint(1, max(1, len(h.live))), set()))
     elif scenario == "boundary":
-        b = rng.choice([4, 8, 16] if tier == "quick" else [4, 8, 16, 32])
-        while len(h.live) < b:
+        b = min(rng.choice([4, 8, 16] if tier == "quick" else [4, 8, 16, 32]), len(h.pool) - 1)
+        guard = 0
+        while len(h.live) < b and guard < 60:
+            guard += 1
             emit(h.add(min(b - len(h.live), rng.choice([1, 2, 8])), set()))
         for _ in range(rng.randint(3, 7)):
             busy = set()
@@ -289,7 +294,7 @@ def gen_case(rng, idx, tier, fn=None):
         err = 1 if rng.random() < 0.93 else 0
     elif fn != "nest" and rng.random() < 0.1:
         err = 1
-    pool = rng.sample(KEY_POOL, rng.choice([4, 6, 10, 20]))
+    pool = rng.sample(KEY_POOL, rng.choice([4, 6, 10, 20, 20, 36]))
     lines = ["case %d" % idx, "cfg %s %d %d" % (fn, key, err)]
     if fn == "nest":
         cycles = _nest_cycles(rng, tier)
